@@ -104,6 +104,11 @@ Theorem extracted_clock_reads_locked :
   count_clock SessionCache_getitem = 1%nat /\ count_clock SessionCache_setitem = 1%nat.
 Proof. exact extracted_clock_facts. Qed.
 
+(* no write to any attribute of self (known or new, binding or contents) outside the lock *)
+Theorem extracted_writes_under_lock :
+  forallb (fun m : xmethod => let '(_, _, p) := m in writes_locked false p) all_methods = true.
+Proof. exact extracted_writes_locked. Qed.
+
 Theorem extracted_methods_complete :
   map (fun m : xmethod => let '(c, n, _) := m in (c, n)) all_methods =
   [("SessionCache", "__getitem__"); ("SessionCache", "__setitem__");
